@@ -36,7 +36,7 @@ func c15(tier string) []*explore.Scenario {
 		pick(c10(tier), `set="URX"`, `set="oS"`, `set="ZR"`),
 		pick(c11(tier), "handler-returns/n=2/k=0/herr=false", "caller-cancels/n=2/k=1"),
 		pick(c03(tier), "early-error/concurrent/n=2/k=1"),
-		pick(c16(tier), "rpc/unary+stream", "rpc/2streams/preattach=false"),
+		pick(c16(tier), "unary+stream", "2streams/preattach=false"),
 		pick(c17(tier), "bad-peer/failing-writer", "bad-peer/slow-dial", "reattach/before", "shutdown/after=2"),
 		pick(c18(tier), "delivery/keys=2/per=2/late=false", "cancel/after=0/concurrent=true", "stop/after=1"),
 		pick(c19(tier), "http/duplex", "http/idle-timeout/pending=both", "channel/cap=1"),
